@@ -56,13 +56,17 @@ def generate(rng, prop, tier):
         'm': rng.choice([1, 2, 3, 5, 8, 12, 20, 30, 40]),
         'dup': rng.choice([0, 0, 1, 3]),
         'lamb': rng.choice([1e-3, 1e-3, 1e-2, 0.1, 1.0]),
-        'w': rng.random() < 0.3,
+        'w': rng.random() < 0.35,
+        'wkind': rng.choice(['random', 'random', 'const', 'const', 'ones']),
         'ydist': rng.choice(['tt', 'normal', 'const']),
         'single': None,
         'basis': rng.choice(['cheb', 'own', 'ownlist']),
         'ab': rng.choice([[-1.0, 1.0], [0.0, 2.0], [-3.0, 0.5]]),
         'log': rng.random() < 0.05,
     }
+    if kind in ('als', 'als_func') and rng.random() < 0.03:
+        sc['m'] = rng.randint(8193, 20000)        # training sets larger than any plausible internal block size
+        sc['plan'] = None
     if rng.random() < 0.6 and kind in ('als', 'contract'):
         ks = [k for k in range(d) if n[k] >= 2]
         if ks:
@@ -78,6 +82,10 @@ def generate(rng, prop, tier):
         plan.append({'a': a, 'how': rng.choice(['nswp', 'nswp', 'cb']) if kind != 'als_func' else 'nswp',
                      'perm': rng.randrange(1 << 30) if rng.random() < 0.5 else None,
                      'jump': rng.choice([0.0, 0.0, 1e5, -1e5])})
+    if sc.get('plan', 1) is None:
+        plan = plan[:2]
+        for seg in plan:
+            seg['a'] = min(seg['a'], 2)
     sc['plan'] = plan
     sc['share_info'] = rng.random() < 0.4        # one progress record (info dict) reused across all segments / restarts
     if kind == 'als_func' and sc['basis'] == 'ownlist':
@@ -179,7 +187,10 @@ def build_data(sc):
         else:
             y = predict(Yt, I)
         y = y + 0.05 * g.standard_normal(M)
-    w = g.uniform(0.2, 3.0, M) if sc.get('w') and sc.get('kind') != 'als_func' else None
+    w = None
+    if sc.get('w') and sc.get('kind') != 'als_func':
+        wk = sc.get('wkind', 'random')
+        w = g.uniform(0.2, 3.0, M) if wk == 'random' else (np.full(M, float(g.choice([0.1, 5.0, 40.0]))) if wk == 'const' else np.ones(M))
     return I, y, w
 
 
